@@ -80,18 +80,29 @@ Proof.
 Qed.
 Print Assumptions abort_releases.
 
-(* contenders_progress: see C11/ProofsL.v for the definitions. From every reachable state in which the
-   replicas are released (no operation in flight, no accepted pre-commit held), every replica that is at the
-   highest version can run a whole section to commit: there is a finite continuation (explicitly constructed,
-   using only fresh messages, each delivered once) after which its new value is installed as the next version
-   at every replica. *)
-Theorem contenders_progress : forall tr n z es s i xi v,
+(* contenders_progress: see C11/ProofsL.v for `released` (no operation in flight and no accepted pre-commit held
+   at any replica: what abort_releases leads to). From every reachable released state, for every replica i that is
+   at the highest version and every set Q of other replicas that together with i form a majority (the reachable
+   ones; the others take no step and receive nothing), there is a finite continuation - explicitly constructed:
+   i runs one section, only fresh messages are used, each delivered once to the members of Q and answered - after
+   which i and every member of Q have installed i's new value as the next version. *)
+Theorem contenders_progress : forall tr n z es s i xi v Q,
+  run (cfg tr) (init_state n z) es = Some s ->
+  released s -> get s i = Some xi -> (forall j y, get s j = Some y -> n_ver y <= n_ver xi) ->
+  NoDup Q -> (forall j, In j Q -> j < n /\ j <> i) -> required n <= List.length Q ->
+  exists es' s', run (cfg tr) s es' = Some s' /\
+    forall j y, j = i \/ In j Q -> get s' j = Some y -> n_ver y = n_ver xi + 1 /\ n_old y = v.
+Proof. intros tr n z es s i xi v Q H. exact (progress_majority_lemma tr n z s i xi v Q (ex_intro _ es H)). Qed.
+Print Assumptions contenders_progress.
+
+(* ... and with every replica reachable all of them install it *)
+Theorem contenders_progress_all : forall tr n z es s i xi v,
   run (cfg tr) (init_state n z) es = Some s ->
   2 <= n -> released s -> get s i = Some xi -> (forall j y, get s j = Some y -> n_ver y <= n_ver xi) ->
   exists es' s', run (cfg tr) s es' = Some s' /\
     forall j y, get s' j = Some y -> n_ver y = n_ver xi + 1 /\ n_old y = v.
 Proof. intros tr n z es s i xi v H. exact (progress_lemma tr n z s i xi v (ex_intro _ es H)). Qed.
-Print Assumptions contenders_progress.
+Print Assumptions contenders_progress_all.
 
 (* transport_independent: the same events over the in-process and the RPC transport lead to states that differ
    only in pointer identities (erase forgets them), or are impossible over both *)
